@@ -263,10 +263,12 @@ def gen(rng, tier):
         if tier == "quick":
             reps = 2 if bits <= 130 else 1
         else:
-            reps = 30 if bits <= 600 else 6
+            reps = 12 if bits <= 600 else 2
         out += pow_cases(rng, bits, reps)
         out += log_cases(rng, bits, reps)
         out += root_cases(rng, bits, reps * 2)
+    # spread the expensive wide cases over all coqc shards (the driver shards consecutive lines)
+    rng.shuffle(out)
     return [ln for ln in out if strip_est(ln) not in SUSPECT]
 
 
